@@ -14,15 +14,27 @@ import (
 )
 
 func main() {
+	if len(os.Args) > 1 && os.Args[1] == "dbg" {
+		dbgDocBytes()
+		return
+	}
 	ctx := context.Background()
 	st := vkv.NewStore()
 	d, err := world.NewDB(ctx, st)
 	if err != nil {
 		panic(err)
 	}
-	if _, err := d.AddSchema(ctx, os.Args[1]); err != nil {
-		fmt.Println("schema error:", err)
-		return
+	for _, part := range strings.Split(os.Args[1], "|||") {
+		cols, err := d.AddSchema(ctx, part)
+		if err != nil {
+			fmt.Println("schema error:", err)
+			return
+		}
+		if os.Getenv("IDS") != "" {
+			for _, c := range cols {
+				fmt.Printf("  %s version=%s collection=%s\n", c.Name, c.VersionID, c.CollectionID)
+			}
+		}
 	}
 	defer func() {
 		if os.Getenv("KEYS") != "" {
